@@ -2,13 +2,14 @@
 # Configure (once) and incrementally build the ASan+UBSan, hooks-on build of /repo's working tree.
 # usage: repo_build.sh [ninja targets...]
 set -e
-B=/verif/build/repo-asan
+SRC=${VV_REPO:-/repo}
+B=${VV_RB:-/verif/build/repo-asan}
 mkdir -p /verif/build
-exec 9>/verif/build/.repo-build.lock
+exec 9>$B.lock
 flock 9
 FLAGS="-O1 -g1 -fno-omit-frame-pointer -fsanitize=address,undefined -fno-sanitize-recover=undefined -DVOTCA_VERIF"
 if [ ! -f $B/build.ninja ]; then
-  cmake -G Ninja -S /repo -B $B -DCMAKE_BUILD_TYPE=None \
+  cmake -G Ninja -S $SRC -B $B -DCMAKE_BUILD_TYPE=None \
     -DCMAKE_CXX_FLAGS="$FLAGS" -DCMAKE_EXE_LINKER_FLAGS="-fsanitize=address,undefined" \
     -DBUILD_SHARED_LIBS=OFF -DBUILD_TESTING=OFF -DBUILD_MANPAGES=OFF \
     -DENABLE_WARNING_FLAGS=OFF -DINJECT_MARCH_NATIVE=OFF -DBUILD_XTP=OFF \
